@@ -121,7 +121,9 @@ fn run_big(n: u32, style: u8, stride: u16, take_every: u8, attacks: &[(u16, u16)
         // one case in four: two identifiers of 2^16 +- 40 bytes (a single piece larger than any block buffer)
         for i in [1usize, n / 2] {
             if i < n {
-                labels[i] = format!("giant_{}_{}", "g".repeat(65_500 + (stride as usize % 80)), i);
+                // ... and, one time in three of these, of 2^20 + a few bytes
+                let len = if stride % 12 == 0 { (1 << 20) + (stride as usize % 80) } else { 65_500 + (stride as usize % 80) };
+                labels[i] = format!("giant_{}_{}", "g".repeat(len), i);
             }
         }
         rec.class("big-with-identifiers-of-2^16-bytes");
